@@ -163,12 +163,21 @@ pub fn run(seed: u64, n: usize, outdir: &str, _corpus: Option<&str>) -> std::io:
         }
         let unk = "DEFAULT,0,0,100,unk\n".to_string();
         let (rf, lf, cf) = (bg.right_file(), bg.left_file(), bg.cost_file());
+        let reload = rng.chance(1, 2);
         let build = |dual: bool| {
             let (lex, rf, lf, cf, unk) = (lex.clone(), rf.clone(), lf.clone(), cf.clone(), unk.clone());
             guarded(move || {
-                vibrato::SystemDictionaryBuilder::from_readers_with_bigram_info(
+                let d = vibrato::SystemDictionaryBuilder::from_readers_with_bigram_info(
                     lex.as_bytes(), rf.as_bytes(), lf.as_bytes(), cf.as_bytes(), CHAR_DEF.as_bytes(), unk.as_bytes(), dual,
-                )
+                )?;
+                // half of the cases observe the connector after a write / read round trip (decoded scorer)
+                if reload {
+                    let mut buf = vec![];
+                    d.write(&mut buf)?;
+                    vibrato::Dictionary::read(&buf[..])
+                } else {
+                    Ok(d)
+                }
             })
         };
         let raw = build(false);
